@@ -261,7 +261,9 @@ Proof.
     cbv beta iota zeta in H. injection H as <- <-. destruct (Best1 ltac:(discriminate)) as (_ & _ & CL).
     split; [|discriminate]. intros p Hp Hv. specialize (Ki p Hp Hv). destruct (has_best w3).
     + rewrite BE3. lia.
-    + destruct (JP_mark_best_nil n w3 P3 ltac:(rewrite F3v; rewrite F3s in *; exact LE3)) as [_ BE5]. rewrite BE5. lia.
+    + destruct (JT_restore n w3 P3) as [P3r _].
+      destruct (JP_mark_best_nil n (restore w3) P3r ltac:(destruct w3; cbn; apply Z.le_refl)) as [_ BE5].
+      rewrite BE5, R1, R3, F3v. rewrite F3s in *. lia.
   - (* NewLineBeforeBreak *)
     cbv beta iota zeta in H. rewrite R2, F3b in H. injection H as <- <-.
     destruct (set_br_proj (restore w3) (mark_grapheme_unused (mark_word_unused b1))) as (U1 & U2 & U3 & U4 & U5).
@@ -399,14 +401,15 @@ Proof.
   - (* Truncated *)
     assert (Ht : lc_truncating lc = true) by (apply K3; right; reflexivity).
     destruct (Best1 ltac:(discriminate)) as (_ & _ & CL & _).
-    assert (X' : JP n (if has_best w3 then w3 else mark_best w3 []) /\ w_br (if has_best w3 then w3 else mark_best w3 []) = b1
-                 /\ s_save (w_sc (if has_best w3 then w3 else mark_best w3 [])) = s_alt (w_sc w)
-                 /\ w_start (if has_best w3 then w3 else mark_best w3 []) = w_start w
-                 /\ best_end (if has_best w3 then w3 else mark_best w3 []) <= Z.max (w_start w) (b_wpos b1)).
+    assert (X' : JP n (if has_best w3 then w3 else mark_best (restore w3) []) /\ w_br (if has_best w3 then w3 else mark_best (restore w3) []) = b1
+                 /\ s_save (w_sc (if has_best w3 then w3 else mark_best (restore w3) [])) = s_alt (w_sc w)
+                 /\ w_start (if has_best w3 then w3 else mark_best (restore w3) []) = w_start w
+                 /\ best_end (if has_best w3 then w3 else mark_best (restore w3) []) <= Z.max (w_start w) (b_wpos b1)).
     { destruct (has_best w3).
       - split; [exact P3|]. repeat split; auto. rewrite BE3. exact Bmax.
-      - destruct (JP_mark_best_nil n w3 P3 ltac:(rewrite F3v; rewrite F3s in *; exact LE3)) as [P4 BE5]. split; [exact P4|].
-        rewrite BE5. destruct w3; cbn in *. repeat split; auto. lia. }
+      - destruct (JT_restore n w3 P3) as [P3r _].
+        destruct (JP_mark_best_nil n (restore w3) P3r ltac:(destruct w3; cbn; apply Z.le_refl)) as [P4 BE5]. split; [exact P4|].
+        rewrite BE5, R1, R3, F3v, F3s. pose proof (proj2 HT) as HTa. destruct w3; cbn in *. repeat split; auto. lia. }
     destruct X' as (X'1 & X'2 & X'3 & X'4 & X'5).
     cbv beta iota zeta in H. destruct (policy_never _).
     + injection H as <- <-. split; [|discriminate]. intros p Hp Hv. specialize (P0 p Hp Hv). lia.
